@@ -1,5 +1,7 @@
 import ScVerif.C09.Codec
 import ScVerif.C08.Include
+import ScVerif.C08.Subscribe
+import ScVerif.C08.Booking
 /-! Driver handler for C08.
 
 Predicates are the closed family shared with the Go harness: `nil` (no include option) or a truth
@@ -15,10 +17,22 @@ of `mask` (valIdx 0 = absent) is the answer; unknown ids/values answer false; th
                                        under every recv/emit pattern (then drain) → the set of streams the
                                        subscriber can be sent, `|`-separated, sorted
 ops: `add:i:v` `upd:i:v` `ups:i:v` `del:i`; times are dropped from `pull`/`burst` answers (`0`).
+`delc:i:v:k` is `Delete(i, WithExpectedCheck(cb))` whose callback, on its first `k` invocations, writes
+to the collection itself: `Update(i, v)`, or `Delete(i)` when `v` is `-` (`Act.deleteRetry`).  A write
+that publishes several events answers them `;`-separated.
 `pull:keep1` / `pull:keep2` (and `burst:…`) add a read mask: messages are two-field tokens `ab`, the
 mask keeps the first resp. second field and the stripped one reads `_`.
 `pull:<mask>:<equiv>:<0|1>` additionally configures an equivalence (`none`/`same`/`first`, applied to the
 masked old/new after include) and `WithUpdatesOnly` (no seed).
+* `sched <pred> <nBefore> <op>* <step>*`   the concurrent subscribe model (`ScVerif/C08/Subscribe.lean`, code as
+                                       it is: `locked = true`): the first `nBefore` tokens are writes building the
+                                       initial contents, the rest is a schedule of steps `c=<op>` (commit),
+                                       `p` (publish), `d=<id>` (deleteNow), `s` (snapshot), `l` (listen) →
+                                       `seed=<seed events> recv=<include-filtered received events> list=<List(WithInclude)> pend=<0|1> sub=<idle|snap|listen>`
+* `bpull <q> <nBefore> <op>*`          as `pull`, with the booking server's include option (`bookingInclude`,
+                                       `ScVerif/C08/Booking.lean`): message tokens are booked periods `s/e`
+                                       (`-` = unbounded side, seconds) or `nil` (no booked period); `<q>` is the
+                                       request's `booking_intersects` period or `absent`
 -/
 namespace ScVerif.C08
 open ScVerif.Line ScVerif.C09
@@ -54,6 +68,14 @@ def parseOp? (s : String) : Option (Op String String) :=
   | ["ups", i, v] => if i = "" ∨ v = "" then none else some (.upsert i v)
   | ["del", i] => if i = "" then none else some (.delete i)
   | _ => none
+
+def parseAct? (s : String) : Option (Act String String) :=
+  match s.splitOn ":" with
+  | ["delc", i, v, k] =>
+    if i = "" ∨ v = "" then none else do
+      let k ← parseNat? k
+      pure (.deleteRetry i (List.replicate k [if v = "-" then Op.delete i else Op.update i v]))
+  | _ => (parseOp? s).map Act.op
 
 /-- insertion sort by id: `sort.Slice(currentValues, id <)` (ids are distinct) -/
 def insertById (x : String × String) : List (String × String) → List (String × String)
@@ -110,14 +132,17 @@ def parseOpName? (name : String) (s : String) : Option PullOpts :=
     | _ => none
 
 def pullAfter (p : Option (Pred String String)) (o : PullOpts) (items : List (String × String)) :
-    List (Op String String) → List String
+    List (Act String String) → List String
   | [] => []
-  | op :: ops =>
-    let r := stepOp 0 items op
+  | a :: as =>
+    let r := stepAct 0 items a
     let ev := match r.2 with
-      | none => "fail"
-      | some c => showOptChange ((pullStep p o.proj o.equiv c).map zeroTime)
-    (ev ++ "@" ++ listOf p o.proj r.1) :: pullAfter p o r.1 ops
+      | [] => (match a with | .op _ => "fail" | .deleteRetry _ _ => "drop")  -- a re-entrant delete's result is not part of the answer
+      | evs =>
+        match evs.filterMap (fun c => (pullStep p o.proj o.equiv c).map zeroTime) with
+        | [] => "drop"
+        | ds => ";".intercalate (ds.map showChange)
+    (ev ++ "@" ++ listOf p o.proj r.1) :: pullAfter p o r.1 as
 
 /-- Every stream `mergeCollectionExcess` can emit for the inputs `ins`, over all recv/emit patterns,
 draining at the end. -/
@@ -131,29 +156,80 @@ def allEmits : (fuel : Nat) → MState String String → List SChange → List (
     | [] => if st.pending.isEmpty then [[]] else viaEmit
     | e :: rest => allEmits fuel (recv st e) rest ++ viaEmit
 
+/-- a period token `s/e` with `-` for an unbounded side; anything else (`nil`) is "no period" -/
+def periodOfTok (s : String) : Option ScVerif.C18.Period :=
+  match s.splitOn "/" with
+  | [a, b] =>
+    let bound (x : String) : Option (Option ScVerif.C18.Ts) :=
+      if x = "-" then some none else (parseNat? x).map (fun n => some ⟨n, 0⟩)
+    match bound a, bound b with
+    | some lo, some hi => some ⟨lo, hi⟩
+    | _, _ => none
+  | _ => none
+
+def handleBPull? (q n : String) (ops : List String) : Option String := do
+  let qp ← if q = "absent" then some none else (periodOfTok q).map some
+  let p : Option (Pred String String) := bookingInclude periodOfTok qp
+  let n ← parseNat? n
+  let ops ← ops.mapM parseAct?
+  if n > ops.length then none
+  let before := runActs 0 [] (ops.take n)
+  let o : PullOpts := ⟨id, none, false⟩
+  let seedEvs := seedFrom 0 (sortById (itemSlice p before.1))
+  pure (" ".intercalate (("seed=" ++ showChanges seedEvs) :: pullAfter p o before.1 (ops.drop n)))
+
+def parseStep? (s : String) : Option (Step String String) :=
+  if s = "p" then some .publish
+  else if s = "s" then some .snapshot
+  else if s = "l" then some .listen
+  else match s.splitOn "=" with
+    | ["c", op] => (parseOp? op).map Step.commit
+    | ["d", i] => if i = "" then none else some (.deleteNow i)
+    | _ => none
+
+def handleSched? (p n : String) (toks : List String) : Option String := do
+  let p ← parsePred? p
+  let n ← parseNat? n
+  if n > toks.length then none
+  let ops ← (toks.take n).mapM parseOp?
+  let steps ← (toks.drop n).mapM parseStep?
+  let s := sysRun true p (Sys.init (runOps 0 [] ops).1) steps
+  let (sub, seed, recv) := match s.sub with
+    | .idle => ("idle", [], [])
+    | .snapping seed => ("snap", seed, [])
+    | .listening seed recv => ("listen", seed, recv)
+  pure (" ".intercalate [
+    "seed=" ++ showChanges (seedFrom 0 (sortById seed)),
+    "recv=" ++ showChanges ((recv.filterMap (includeChange p)).map zeroTime),
+    "list=" ++ listOf p id s.items,
+    "pend=" ++ (if s.pend.isSome then "1" else "0"),
+    "sub=" ++ sub])
+
 def handle? (toks : List String) : Option String :=
   match toks with
   | ["include", p, c] => do
     let p ← parsePred? p
     let c ← parseChange? c
     pure (showOptChange (includeChange p c))
+  | "sched" :: p :: n :: rest => handleSched? p n rest
+  | "bpull" :: q :: n :: rest => handleBPull? q n rest
   | op :: p :: n :: ops => do
     if let some o := parseOpName? "pull" op then
     let p ← parsePred? p
     let n ← parseNat? n
-    let ops ← ops.mapM parseOp?
+    let ops ← ops.mapM parseAct?
     if n > ops.length then none
-    let before := runOps 0 [] (ops.take n)
+    let before := runActs 0 [] (ops.take n)
     let seedEvs := if o.updatesOnly then [] else (seedFrom 0 (sortById (itemSlice p before.1))).map (maskChange o.proj)
     pure (" ".intercalate (("seed=" ++ showChanges seedEvs) :: pullAfter p o before.1 (ops.drop n)))
     else
     let o ← parseOpName? "burst" op
     let p ← parsePred? p
     let n ← parseNat? n
-    let ops ← ops.mapM parseOp?
+    let ops ← ops.mapM parseAct?
     if n > ops.length then none
-    let before := runOps 0 [] (ops.take n)
-    let after := runOps 0 before.1 (ops.drop n)
+    let before := runActs 0 [] (ops.take n)
+    let after := runActs 0 before.1 (ops.drop n)
     let ins := after.2.map zeroTime
     let streams := (allEmits (2 * ins.length + 2) MState.init ins).map
       (fun em => showChanges (em.filterMap (pullStep p o.proj o.equiv)))
